@@ -214,7 +214,7 @@ namespace via
       size_t pos{input.find(delimiter)};
       while (pos != std::string::npos)
       {
-          output.emplace_back(input.substr(last_pos, pos));
+          output.emplace_back(input.substr(last_pos, pos - last_pos));
           last_pos = pos + 1;
           pos = input.find(delimiter, last_pos);
       }
